@@ -16,6 +16,14 @@ type Clause struct {
 	Go    string // preprocessed Go expression
 }
 
+// AssertClause: an intermediate assertion placed after a statement of the body
+type AssertClause struct {
+	Label string
+	After string // fragment of the source text of the statement after (or before) which the assertion holds
+	Before bool
+	Text  string
+}
+
 type LoopContract struct {
 	Invariants []Clause
 	Decreases  []string
@@ -48,6 +56,7 @@ type Contract struct {
 	AssumeUnreach []string // explicit panic sites (by a fragment of their source text) assumed unreachable; listed in the evidence
 	GhostSets     []string // "name = expr": ghost counter updates performed by a call to this function
 	Lemmas        []string // ghost lemma calls instantiated before the postconditions are checked
+	Asserts       []AssertClause // "assert @label after <source fragment> :: expr": proof obligation after the first statement containing the fragment
 	LoopInv       []Clause // default invariants for every for-loop without own contract
 	LoopDec       []string // default decreases for every for-loop without own contract
 	FromTemplate  bool
@@ -73,7 +82,7 @@ var clauseKeywords = map[string]bool{
 	"serves": true, "requires": true, "ensures": true, "modifies": true, "decreases": true,
 	"loop": true, "flag": true, "pure": true, "trusted": true, "inline": true, "opaque": true,
 	"nopanic": true, "maypanic": true, "unroll": true, "abstract": true, "allocates": true, "replaytext": true, "wrap": true, "overflow": true, "norac": true, "stages": true,
-	"split": true, "assume-unreachable": true, "ghostset": true, "assumes": true, "assumepre": true, "lemma": true, "except": true, "loopinvariant": true, "loopdecreases": true, "notemplate": true,
+	"split": true, "assume-unreachable": true, "ghostset": true, "assumes": true, "assumepre": true, "lemma": true, "assert": true, "except": true, "loopinvariant": true, "loopdecreases": true, "notemplate": true,
 }
 
 // parseContracts reads all /*@ ... @*/ blocks of a contracts file.
@@ -133,6 +142,15 @@ func parseBlock(body string) (*Contract, error) {
 		return nil, fmt.Errorf("empty contract block")
 	}
 	c := &Contract{Loops: map[int]*LoopContract{}, Flags: map[string]string{}}
+	if strings.HasPrefix(clauses[0], "assume-pure ") {
+		// assume-pure <interface type text>.<Method> [nonnil]: calls of the method
+		// through the interface are a deterministic function of the receiver value
+		c.IsDirective = true
+		c.Key = "directive:" + clauses[0]
+		c.Directive = clauses[0]
+		c.Used = true
+		return c, nil
+	}
 	if strings.HasPrefix(clauses[0], "assume-invariant ") {
 		c.IsDirective = true
 		c.Key = "directive:" + clauses[0]
@@ -176,6 +194,15 @@ func parseBlock(body string) (*Contract, error) {
 			}
 		case "lemma":
 			c.Lemmas = append(c.Lemmas, rest)
+		case "assert":
+			cl := mkClause(rest, len(c.Asserts)+1)
+			before := strings.HasPrefix(cl.Text, "before")
+			body := strings.TrimSpace(strings.TrimPrefix(strings.TrimPrefix(cl.Text, "after"), "before"))
+			k := strings.Index(body, " :: ")
+			if !(strings.HasPrefix(cl.Text, "after") || before) || k < 0 {
+				return nil, fmt.Errorf("bad assert clause %q (want: assert @label after|before <fragment> :: expr)", rest)
+			}
+			c.Asserts = append(c.Asserts, AssertClause{Label: cl.Label, After: strings.TrimSpace(body[:k]), Before: before, Text: strings.TrimSpace(body[k+4:])})
 		case "except":
 			for _, e := range strings.Split(rest, ",") {
 				if e = strings.TrimSpace(e); e != "" {
@@ -340,6 +367,22 @@ func specToGo(s string, resultName string) string {
 			}
 			v := strings.TrimSpace(rest[:i])
 			rng := rest[i+4 : j]
+			if kr := strings.TrimSpace(rng); kr == "allocated" && q == "forall" {
+				// forall <ident> <pointer type> in allocated :: body  (all cells that exist in the pre-state)
+				parts := strings.Fields(v)
+				if len(parts) != 2 {
+					return "__BAD_CELL_QUANTIFIER__"
+				}
+				return fmt.Sprintf("__forallcells(func(%s %s) bool { return %s })", parts[0], parts[1], specToGo(rest[j+2:], resultName))
+			}
+			if kr := strings.TrimSpace(rng); strings.HasPrefix(kr, "keys(") && strings.HasSuffix(kr, ")") && q == "forall" {
+				// forall <ident> <type> in keys(<map>) :: body
+				parts := strings.Fields(v)
+				if len(parts) != 2 {
+					return "__BAD_KEY_QUANTIFIER__"
+				}
+				return fmt.Sprintf("__forallkeys(%s, func(%s %s) bool { return %s })", specToGo(kr[5:len(kr)-1], resultName), parts[0], parts[1], specToGo(rest[j+2:], resultName))
+			}
 			k := indexTop(rng, "..")
 			if k < 0 {
 				return "__BAD_QUANTIFIER_RANGE__"
@@ -455,6 +498,10 @@ func specToGo(s string, resultName string) string {
 					sb.WriteString("__lastsent")
 				case w == "sentcount" && next == '(':
 					sb.WriteString("__sentcount")
+				case w == "haskey" && next == '(':
+					sb.WriteString("__haskey")
+				case w == "visited" && next == '(':
+					sb.WriteString("__visited")
 				case w == "sameslice" && next == '(':
 					sb.WriteString("__samefn")
 				case w == "disjoint" && next == '(':
